@@ -6,6 +6,8 @@
 #include <cstring>
 #include <string>
 #include <vector>
+#include <utility>
+#include <cmath>
 #include "sundials_shim.h"
 #include "naunet.h"
 #include "naunet_ode.h"
@@ -36,7 +38,30 @@ int SUNMatZero(SUNMatrix) { return 0; }
 SUNLinearSolver SUNLinSol_Dense(N_Vector, SUNMatrix, SUNContext) { return (void *)1; }
 SUNLinearSolver SUNLinSol_KLU(N_Vector, SUNMatrix, SUNContext) { return (void *)1; }
 int SUNLinSolSetup(SUNLinearSolver, SUNMatrix) { return 0; }
-int SUNLinSolSolve(SUNLinearSolver, SUNMatrix, N_Vector, N_Vector, realtype) { return 0; }
+// a real dense solve (Gaussian elimination with partial pivoting on copies): A x = b; x may alias b
+int SUNLinSolSolve(SUNLinearSolver, SUNMatrix A, N_Vector x, N_Vector b, realtype) {
+    if (!A || !A->data || !x || !b) return 0;
+    sunindextype n = A->rows;
+    std::vector<double> M(A->data, A->data + n * n), r(b->data, b->data + n);
+    auto at = [&](sunindextype i, sunindextype j) -> double & { return M[j * n + i]; };
+    for (sunindextype c = 0; c < n; c++) {
+        sunindextype p = c;
+        for (sunindextype i = c + 1; i < n; i++) if (std::fabs(at(i, c)) > std::fabs(at(p, c))) p = i;
+        if (at(p, c) == 0.0) return -1;
+        if (p != c) { for (sunindextype j = 0; j < n; j++) std::swap(at(p, j), at(c, j)); std::swap(r[p], r[c]); }
+        for (sunindextype i = c + 1; i < n; i++) {
+            double f = at(i, c) / at(c, c);
+            for (sunindextype j = c; j < n; j++) at(i, j) -= f * at(c, j);
+            r[i] -= f * r[c];
+        }
+    }
+    for (sunindextype i = n - 1; i >= 0; i--) {
+        double v = r[i];
+        for (sunindextype j = i + 1; j < n; j++) v -= at(i, j) * x->data[j];
+        x->data[i] = v / at(i, i);
+    }
+    return 0;
+}
 int SUNLinSolFree(SUNLinearSolver) { return 0; }
 void *CVodeCreate(int, SUNContext) { return (void *)1; }
 int CVodeSetErrFile(void *, FILE *) { return 0; }
@@ -85,6 +110,7 @@ int CVodeReInit(void *, realtype t0, N_Vector y0) {
 int Fex(realtype, N_Vector, N_Vector, void *) { return 0; }
 int Jac(realtype, N_Vector, N_Vector, SUNMatrix, void *, N_Vector, N_Vector, N_Vector) { return 0; }
 
+#ifndef MOCK_NO_MAIN
 int main(int argc, char **argv) {
     std::string s = argc > 1 ? argv[1] : "";
     double dt = argc > 2 ? atof(argv[2]) : 1.0, y0 = argc > 3 ? atof(argv[3]) : 0.0;
@@ -119,3 +145,4 @@ int main(int argc, char **argv) {
     printf("%d %.17g %ld %ld %d\n", flag, ab[0], ncalls, nreinit, logged);
     return 0;
 }
+#endif
